@@ -551,6 +551,13 @@ def jobs(tier):
   for pad in (False, True):
     add('h_drums', N=2, S=6, search=0, gap=1, pad=pad, ignore_is_drum=False)
   add('h_drums', N=2, S=6, search=4, gap=1, pad=False, ignore_is_drum=True)
+  # 2-step bars: a first hit in a later bar followed by a whole silent bar fits
+  # in 6 steps (gap measured from a track start other than 0)
+  for pad in (False, True):
+    add('h_drums', N=2, S=6, search=0, gap=1, pad=pad, ignore_is_drum=False,
+        ts=[2, 4])
+  add('h_drums', N=2, S=7, search=2, gap=2, pad=False, ignore_is_drum=True,
+      ts=[2, 4])
   add('h_drums', N=1, S=4, search=0, gap=1, pad=False, ignore_is_drum=False,
       ts=[3, 8], spq=1)
   # chords
@@ -568,6 +575,9 @@ def jobs(tier):
       filter_drums=True)
   add('h_melody', N=1, S=4, search=0, gap=1, pad=False, ignore_poly=False,
       filter_drums=True, ts=[3, 8], spq=1)
+  # 2-step bars: melody starting in a later bar, then a silent bar
+  add('h_melody', N=2, S=6, search=0, gap=1, pad=False, ignore_poly=True,
+      filter_drums=True, ts=[2, 4], budget=600)
   # three notes on concrete step patterns, pitches / velocities / drum flags /
   # instruments symbolic
   for pat in _PATTERNS3_SHORT:
